@@ -95,6 +95,51 @@ Qed.
 Theorem min_n_ok_iff n : min_n_ok n = true <-> (0 <= n)%Z.
 Proof. unfold min_n_ok. apply Z.leb_le. Qed.
 
+(* the count given in two dictionaries (amplitude method) *)
+Lemma opt_min_n_ok_iff c : opt_min_n_ok c = true <-> forall n, c = Some n -> (0 <= n)%Z.
+Proof.
+  destruct c as [m|]; cbn.
+  - rewrite min_n_ok_iff. split.
+    + intros Hm n Hn. injection Hn as <-. exact Hm.
+    + intros H. apply H. reflexivity.
+  - split; [intros _ n Hn; discriminate Hn | reflexivity].
+Qed.
+
+Theorem min_n_pair_ok_iff b t :
+  min_n_pair_ok b t = true <-> (forall n, b = Some n -> (0 <= n)%Z) /\ (forall n, t = Some n -> (0 <= n)%Z).
+Proof. unfold min_n_pair_ok. rewrite andb_true_iff, !opt_min_n_ok_iff. reflexivity. Qed.
+
+Theorem min_n_pair_negative_rejected b t n :
+  b = Some n \/ t = Some n -> (n < 0)%Z -> min_n_pair_ok b t = false.
+Proof.
+  intros Hbt Hn. destruct (min_n_pair_ok b t) eqn:E; [|reflexivity].
+  apply min_n_pair_ok_iff in E. destruct E as [Hb Ht].
+  destruct Hbt as [H|H]; [apply Hb in H | apply Ht in H]; lia.
+Qed.
+
+(* the resolution of the two entries into one validated count agrees with the rule except on exactly one class: a valid
+   count in burst_kwargs and a negative one in the thresholds (the negative entry is overwritten unseen) *)
+Theorem min_n_pair_legacy_differs_iff b t :
+  min_n_pair_ok_legacy b t <> min_n_pair_ok b t <->
+  exists nb nt, b = Some nb /\ t = Some nt /\ (0 <= nb)%Z /\ (nt < 0)%Z.
+Proof.
+  unfold min_n_pair_ok_legacy, min_n_pair_ok, effective_min_n, opt_min_n_ok, min_n_ok.
+  destruct b as [nb|], t as [nt|]; cbn.
+  - destruct (0 <=? nb)%Z eqn:Eb, (0 <=? nt)%Z eqn:Et; cbn; split; intros H;
+      try (exfalso; apply H; reflexivity);
+      try (destruct H as (x & y & Hx & Hy & H1 & H2); injection Hx as <-; injection Hy as <-;
+           apply Z.leb_le in Et || apply Z.leb_gt in Eb; lia).
+    + exists nb, nt. apply Z.leb_le in Eb. apply Z.leb_gt in Et. auto.
+    + discriminate.
+  - rewrite andb_true_r. split; [intros H; exfalso; apply H; reflexivity | intros (x & y & _ & Hy & _); discriminate Hy].
+  - split; [intros H; exfalso; apply H; reflexivity | intros (x & y & Hx & _); discriminate Hx].
+  - split; [intros H; exfalso; apply H; reflexivity | intros (x & y & Hx & _); discriminate Hx].
+Qed.
+
+Theorem min_n_pair_legacy_refuted :
+  exists b t n, t = Some n /\ (n < 0)%Z /\ min_n_pair_ok_legacy b t = true /\ min_n_pair_ok b t = false.
+Proof. exists (Some 3%Z), (Some (-1)%Z), (-1)%Z. repeat split; reflexivity. Qed.
+
 Theorem option_ok_iff nv o : option_ok nv o = true <-> exists i, o = OptValid i /\ (i < nv)%nat.
 Proof.
   destruct o as [i|]; unfold option_ok.
